@@ -4,12 +4,12 @@ import vlib
 
 # (A) design model: exact M-step on a lattice + log-sum-exp on a lattice of weighted log-probabilities
 MODEL = {"quick": dict(MaxN=3, MaxCells=4, MaxC=1, MaxK=2, RD=2, Forms='{"stable"}'),
-         "thorough": dict(MaxN=4, MaxCells=4, MaxC=2, MaxK=2, RD=2, Forms='{"stable"}')}
+         "thorough": dict(MaxN=3, MaxCells=6, MaxC=2, MaxK=2, RD=2, Forms='{"stable"}')}
 NAIVE = dict(MaxN=2, MaxCells=2, MaxC=1, MaxK=2, RD=2, Forms='{"naive"}')
 INVS = ["InvExact", "InvRegPD", "InvSylvester", "InvModel", "InvK1", "InvFailed", "InvRow", "InvSensitive", "InvPd3"]
 ACTIONS = ["ChooseCfg", "ChooseData", "MEmpty", "MSingular", "MStep", "Query"]
 # (B) generator
-GEN = {"quick": dict(Tier='"quick"', Thin=6), "thorough": dict(Tier='"thorough"', Thin=6)}
+GEN = {"quick": dict(Tier='"quick"', Thin=6), "thorough": dict(Tier='"thorough"', Thin=7)}
 TRACE_CONST = dict(MaxN=0, MaxCells=0, MaxC=0, MaxK=0, RD=1, Forms="{}")
 
 REGS = [(0, 1), (1, 1000000), (1, 10000), (1, 100), (1, 2), (3, 1)]
